@@ -747,12 +747,14 @@ func (c *Ctx) scannerErrRule() {
 
 func (c *Ctx) cleanEOF() {
 	ia := c.interp()
-	f := ia.execScanner
+	// the function that holds the token loop: executeScanner, or the function it hands the loop to
+	// (the one that dispatches the tokens the scanner delivers; tokenLoopFunc, ext_x6.go)
+	f := c.tokenLoopFunc(ia)
 	fname := c.fname(f)
 	scanTok := c.method("postscript", "scanner", "ScanToken")
 	calls := staticCalls(f, scanTok)
 	if len(calls) != 1 {
-		c.fail("IO-CLEANEOF", fname, "token loop", f.Pos(), "expected one ScanToken call in executeScanner")
+		c.fail("IO-CLEANEOF", fname, "token loop", f.Pos(), "expected one ScanToken call in the function that holds the token loop")
 		return
 	}
 	call := calls[0].(*ssa.Call)
@@ -795,6 +797,27 @@ func (c *Ctx) cleanEOF() {
 		}
 	}
 	c.check(okAll, "IO-CLEANEOF", fname, "the token loop ends normally only on io.EOF", call.Pos(), "the only normal exit edge is `err == io.EOF`", why)
+	if f != ia.execScanner {
+		// the loop was handed to another function: executeScanner must return what that one returns
+		for _, cs := range staticCalls(ia.execScanner, f) {
+			v, isV := cs.(*ssa.Call)
+			handedOn := isV
+			if isV {
+				for _, r := range *v.Referrers() {
+					switch r := r.(type) {
+					case *ssa.Return, *ssa.DebugRef:
+					case *ssa.Store:
+						if _, isCell := r.Addr.(*ssa.Alloc); !isCell || r.Val != ssa.Value(v) {
+							handedOn = false
+						}
+					default:
+						handedOn = false
+					}
+				}
+			}
+			c.check(handedOn, "IO-CLEANEOF", c.fname(ia.execScanner), "the result of the token loop is returned as it is", cs.Pos(), "returned unchanged", "executeScanner does not return the result of the token loop unchanged: a failure of the loop may be turned into a normal end")
+		}
+	}
 }
 
 func (c *Ctx) registrationLast() {
